@@ -31,7 +31,8 @@ DIGEST_HEX = "".join("%02x" % ((7 * i + 3) % 256) for i in range(32))
 
 
 def one(history, binary):
-    t = tacdrun.Tacd(binary, "validation.example.org", EXT)
+    t = tacdrun.Tacd(binary, "validation.example.org", EXT,
+                     nofile=tacdrun.NOFILE_FOR_EXHAUSTION if "fd-exhaustion" in history else None)
     held = []
     res = {"history": list(history)}
     try:
@@ -79,6 +80,9 @@ def run(ctx):
         histories += list(itertools.product(tacdrun.BEHAVIOURS, repeat=n))
     # aborted connections (RST while queued / right after accept): alone and before each behaviour
     histories += [("connect-reset-burst",)] + [("connect-reset-burst", b) for b in tacdrun.BEHAVIOURS]
+    # a failing accept() (descriptor exhaustion), alone and around other behaviours
+    histories += [("fd-exhaustion",), ("fd-exhaustion", "fd-exhaustion"), ("garbage", "fd-exhaustion"),
+                  ("fd-exhaustion", "tls-foreign-alpn"), ("connect-reset-burst", "fd-exhaustion")]
     with concurrent.futures.ThreadPoolExecutor(max_workers=12) as ex:
         results = list(ex.map(lambda h: one(h, binary), histories))
     helper = mockca.Helper()
